@@ -414,6 +414,22 @@ def sub_sccs(b, blocks):
     return out
 
 
+def loop_depths(b):
+    """{block: loop nesting depth} by recursive SCC decomposition (header = the SCC block entered from outside)."""
+    depth = {}
+
+    def rec(blocks, d):
+        for comp in sub_sccs(b, blocks):
+            cs = set(comp)
+            for x in cs:
+                depth[x] = d
+            heads = [x for x in comp if any(p not in cs for p in b.preds(x))] or [min(comp)]
+            rec(cs - {min(heads)}, d + 1)
+
+    rec(set(b.live_blocks()), 1)
+    return depth
+
+
 def loop_bounded(an, prog, b, comp, depth=0):
     from ..mir import Callee
     cs = set(comp)
